@@ -230,7 +230,11 @@ def run(ctx):
             try_ok = variant_edges(pf, Tp_, is_try, 0, [0, 1], "std::result::Result<")
             try_err = variant_edges(pf, Tp_, is_try, 1, [0, 1], "std::result::Result<")
             none_t = variant_edges(pf, Tp_, tparam, 0, [0, 1], "std::option::Option<") if pf is pp else []
-            for bb_, si_, r_ in ((b2, i2, s2["r"]) for b2 in pf.live_blocks() for i2, s2 in enumerate(pf.blocks[b2]["stmts"]) if s2["k"] == "assign" and s2["r"]["k"] == "agg" and s2["r"].get("kind") == "tuple" and len(s2["r"]["ops"]) == 2):
+            def taken_up(l_):
+                """blocks in which the pair held in local l_ is passed on (moved into another local)"""
+                return [b2 for b2 in pf.live_blocks() for s2 in pf.blocks[b2]["stmts"] if s2["k"] == "assign" and s2["r"]["k"] == "use"
+                        and s2["r"]["op"]["k"] in ("move", "copy") and s2["r"]["op"]["p"]["l"] == l_ and not s2["r"]["op"]["p"]["proj"]]
+            for bb_, si_, r_, dl_ in ((b2, i2, s2["r"], s2["p"]["l"]) for b2 in pf.live_blocks() for i2, s2 in enumerate(pf.blocks[b2]["stmts"]) if s2["k"] == "assign" and s2["r"]["k"] == "agg" and s2["r"].get("kind") == "tuple" and len(s2["r"]["ops"]) == 2):
                 v0, v1 = Tp_.operand(r_["ops"][0]), Tp_.operand(r_["ops"][1])
                 ovf = const_of(v1)
                 if ovf not in (0, 1) or pf.locals[r_["ops"][1]["p"]["l"]]["ty"] != "bool" if r_["ops"][1]["k"] in ("copy", "move") else ovf not in (0, 1):
@@ -239,7 +243,11 @@ def run(ctx):
                 if c0 is not None and c0 < 0 and ovf == 0:
                     # the no-limit pair: the default of unwrap_or (built unconditionally in posix::poll), or under `timeout == None`
                     is_default = pf is pp and any(M.callee_str(t_["f"]) == "std::option::Option::<T>::unwrap_or" and Tq.operand(t_["args"][1]) == ("agg", "tuple", (v0, v1)) for _, t_ in pp.calls())
-                    kinds.setdefault("no-limit", []).append(is_default or (bool(none_t) and dominated_by_edges(pf, bb_, none_t)))
+                    # (built ahead of the case distinction and taken up only in the no-timeout case is the same thing)
+                    up_ = taken_up(dl_)
+                    with_timeout = M.Explore(pf, assume_fn=lambda t_: 1 if (t_ and tparam(t_)) else None).blocks if pf is pp else None
+                    kinds.setdefault("no-limit", []).append(is_default or (bool(none_t) and dominated_by_edges(pf, bb_, none_t)) or
+                                                            (bool(none_t) and bool(up_) and with_timeout is not None and not (set(up_) & with_timeout)))
                 elif ovf == 0 and M.contains(v0, is_ms):
                     exact = (v0[0] == "cast" and dominated_by_edges(pf, bb_, le_t)) or \
                         (M.noref(v0)[0] == "field" and M.noref(v0)[1][0] == "downcast" and M.noref(v0)[1][2] == "Ok" and is_try(M.noref(v0)[1][1]) and dominated_by_edges(pf, bb_, try_ok))
